@@ -34,8 +34,10 @@ assumed("sympy-dims", "sympy dimension expressions form the free abelian group o
         "symbols with rational/real exponents; ==, *, /, ** are the group operations; "
         "arithmetic returns operand atoms by reference (hash-consed Symbol / S.One)")
 assumed("fstrings", "f-strings / % formatting used for messages are total and pure")
-assumed("lru_cache", "functools.lru_cache wrappers are transparent at call sites "
-        "(transparency itself is obligation C12.P3)")
+assumed("lru_cache", "a memoised unit rule returns what its body computes for the given key or for an "
+        "earlier key that is == and hash-equal (same registries); field values of the result are those "
+        "of the current arguments (units equal under Unit.__eq__ are identified), its identity is left "
+        "open (both the very argument object and an equal copy are explored)")
 
 
 # ------------------------------------------------------------------------------ dims
@@ -564,7 +566,13 @@ class UnytDomain:
             it.assume(c)
 
     def may_inline(self, it, fi):
-        return fi.qualname in self.inline
+        if fi.qualname in self.inline:
+            return True
+        # private helpers of the package without a contract are executed as part of their
+        # caller (so extracting a helper is a harmless refactoring for the proofs); anything in
+        # them outside the modelled subset still makes the path undecided
+        name = fi.qualname.rsplit(".", 1)[-1]
+        return name.startswith("_") and not name.startswith("__")
 
     # ---- names ---------------------------------------------------------------------------
     def global_override(self, it, modname, name):
@@ -645,6 +653,23 @@ class UnytDomain:
 
     def obj_truth(self, it, obj):
         return MISSING
+
+    def memo_result(self, it, fi, r, bound):
+        """a memoised function may hand out the object computed for an earlier, *equal* key
+        (functools.lru_cache keyed by __eq__/__hash__): an argument object returned as (part of)
+        the result is therefore either that very object (miss) or an equal copy of it (hit).
+        Both are explored, so nothing verified depends on the identity of a memoised result."""
+        parts = list(r) if isinstance(r, tuple) else [r]
+        args = [v for v in bound.values() if isinstance(v, SObj)]
+        idx = [i for i, x in enumerate(parts) if isinstance(x, SObj) and any(x is a for a in args)]
+        if not idx:
+            return r
+        if it.branch(it.fresh_bool("memo_hit_" + fi.qualname.split(".")[-1])):
+            for i in idx:
+                x = parts[i]
+                parts[i] = SObj(x.cls, dict(x.fields), label=x.label + "_memo")
+            return tuple(parts) if isinstance(r, tuple) else parts[0]
+        return r
 
     def identity(self, it, a, b):
         if isinstance(a, SDim) and isinstance(b, SDim):
